@@ -556,11 +556,17 @@ func (e *CoreExtension) functionRange(args ...interface{}) (interface{}, error) 
 		// For positive step, include the end value (end is inclusive)
 		for i := start; i <= end; i += step {
 			result = append(result, i)
+			if i > end-step { // the next value would pass the end (or overflow)
+				break
+			}
 		}
 	} else {
 		// For negative step, include the end value (end is inclusive)
 		for i := start; i >= end; i += step {
 			result = append(result, i)
+			if i < end-step { // the next value would pass the end (or overflow)
+				break
+			}
 		}
 	}
 
